@@ -85,6 +85,10 @@ def eval_tt(tt, c, X, Y, body, head, red, W=None):
         T = tt.pad(T, ((0, 1),), 0.0)
     elif head == "kron":
         T = T ** Y
+    elif head == "kronl":
+        T = tt.kron(tt.kron(None, T), Y)
+    elif head == "kronr":
+        T = tt.kron(T, None)
     elif head == "diag":
         T = tt.diag(T)
     elif head == "full":
@@ -97,12 +101,12 @@ def eval_tt(tt, c, X, Y, body, head, red, W=None):
 
 def result_shape(c, head):
     N, d = c.N, c.d
-    if head in ("id", "full", "bcast", "bmul", "bsub", "ell"): return list(N)
+    if head in ("id", "full", "bcast", "bmul", "bsub", "ell", "kronr"): return list(N)
     if head == "rslice": return [N[0] - 1] + list(N[1:])
     if head == "slice": return list(N[1:]) if d > 1 else [N[0] - 1]
     if head == "cat": return [2 * N[0]] + list(N[1:])
     if head == "pad": return list(N[:-1]) + [N[-1] + 1]
-    if head == "kron": return list(N) + list(N)
+    if head in ("kron", "kronl"): return list(N) + list(N)
     if head == "diag": return list(N) + list(N)
     raise ValueError(head)
 
@@ -168,7 +172,7 @@ def eval_dense(c, xl, yl, body, head, red, wl=None):
         T = torch.cat((T, Yd), 0)
     elif head == "pad":
         T = torch.nn.functional.pad(T, (0, 1))
-    elif head == "kron":
+    elif head in ("kron", "kronl"):
         T = torch.tensordot(T, Yd, dims=0)
     elif head == "diag":
         sh = list(N)
